@@ -39,6 +39,12 @@ def parseProg : Nat → Sexp → Option Prog
   | f + 1, .list [.atom "with", .atom c, b] => (parseProg f b).map (Prog.withI (parseCtx c))
   | f + 1, .list [.atom "deco", .atom c, b] => (parseProg f b).map (Prog.deco (parseCtx c))
   | f + 1, .list [.atom "catch", b] => (parseProg f b).map Prog.catch
+  | f + 1, .list [.atom "quiet", b] => (parseProg f b).map Prog.quiet
+  | _ + 1, .list [.atom "applyopt", .atom k, b, t] => do
+      let armed ← b.asBool?
+      let tok ← t.asNat?
+      pure (applyOpt k armed tok)
+  | _ + 1, .list [.atom "fb", .atom k, t] => t.asNat?.map (forwardBackward k)
   | f + 1, .list (.atom "seq" :: ps) => parseSeq f ps
   | _ + 1, _ => none
 def parseSeq : Nat → List Sexp → Option Prog
